@@ -34,6 +34,8 @@ def run_envs(b, files, envs_for, mode="buf", objs=OBJS, as_built=False):
     res = b.run(lines)
     out = []
     for (k, f, n, env, d), r in zip(cases, res):
+        if r == "notrun":
+            continue
         rec = Rec()
         rec.fkey, rec.file, rec.tname, rec.env = k, f, n, env
         rec.status, rec.writes = render.parse_render(r)
